@@ -22,6 +22,26 @@ EXTENDS Integers, Sequences, FiniteSets
 
 AllDevs == {"Dev_UnregisteredReRanked", "Dev_RestartForgetsIndex", "Dev_MinTieIgnoresAddress"}
 
+(* ---- vote magnitudes.  The vote values 0..maxv of the model are abstract: a *vote map* sends them strictly
+   monotonically to real vote totals (0 |-> 0), chosen by the binding.  What the model has to know about the real
+   values is their MAGNITUDE CLASS, because the record persisted per candidate (store.Candidate{Address, Total}, RLP,
+   one fixed-size slot of context.data with a {Pos, Len} header) changes its LENGTH with it:
+       class(x) = number of bytes of the RLP encoding of the total x = 1 for 0..127, 1 + (bytes of x) from 128 on.
+   Catalogue (index m, fixed here so that design model, binding and trace validator agree; the binding logs the real
+   record lengths and TraceRanking checks them against MagOf):
+     m = 0      v |-> v                        small totals, every record has the same length
+     m = 1..6   maxv |-> B, v |-> B - (maxv - v) for 0 < v < maxv, with B = 2^7, 2^8, 2^16, 2^24, 2^32, 2^64:
+                the top value is the first total of the next class, every other registered value is in the class
+                below (for m >= 2 the 0 of an unregistered candidate is in a third, still smaller class), so every
+                vote change to / from the top value and (m >= 2) every unregistration rewrites the record with another
+                length, growing and shrinking
+     m = 100    "free": any strictly monotone map, chosen by the binding (only where the design model does not look at
+                the classes: Persist = FALSE) *)
+BoundLo == <<1, 2, 3, 4, 5, 9>>                  \* class of B - 1
+MagMaps == 0..Len(BoundLo)
+FreeMap == 100
+MagOf(m, v, maxv) == IF v = 0 \/ m = 0 THEN 1 ELSE IF v = maxv THEN BoundLo[m] + 1 ELSE BoundLo[m]
+
 SeqSet(s) == {s[i] : i \in 1..Len(s)}
 Better(a, b, v, rk) == v[a] > v[b] \/ (v[a] = v[b] /\ rk[a] < rk[b])          \* votes desc, address asc
 RECURSIVE SortBy(_, _, _)
